@@ -121,7 +121,7 @@ def tree_case(D):
         if stems:
             reexport.append([init, D.choice(stems)])
     return {'tree': {'top': 't', 'dirs': dirs, 'files': files}, 'raising': raising, 'sibling': sibling, 'reexport': reexport,
-            'shadowed_root': second != 'none' and D.chance(1, 2),
+            'shadowed_root': second != 'none' and D.chance(1, 2), 'cwd_entry': D.chance(1, 5),
             'second_root': second, 'index': D.choice([-1, 0]), 'root_has_init': D.chance(1, 6), 'root_on_path': D.chance(1, 4),
             'symlink': D.chance(1, 4)}
 
@@ -239,11 +239,35 @@ def check_case(case, ctx):
                 ctx.tag('tree:symlinked_member')
         has_plain = any(not h for _r, h in tree['dirs'])
         n_checked = 0
+        # the search directory may be named the way `python -c` / the REPL name it: '' (the current directory)
+        call_roots = roots
+        old_cwd = None
+        if case.get('cwd_entry'):
+            old_cwd = os.getcwd()
+            os.chdir(root)
+            call_roots = ['' if r == root else r for r in roots]
+            if ctx is not None:
+                ctx.tag('tree:root_named_as_empty_string')
+        try:
+            self_check_names(case, ctx, tree, roots, call_roots, present, absent, has_plain, root_has_init, utils)
+        finally:
+            if old_cwd is not None:
+                os.chdir(old_cwd)
+        if root_has_init:
+            if ctx is not None:
+                ctx.tag('root_is_package_dir')
+            return
+        _after_names(case, ctx, tree, root, roots, utils)
+
+
+def self_check_names(case, ctx, tree, roots, call_roots, present, absent, has_plain, root_has_init, utils):
+    if True:
+        n_checked = 0
         for name in present + absent:
             spec = ref_resolve(roots, name)
             with sandbox.quiet():
-                got_f = utils.modname_to_modpath(name, hide_init=False, sys_path=roots)
-                got_d = utils.modname_to_modpath(name, hide_init=True, sys_path=roots)
+                got_f = utils.modname_to_modpath(name, hide_init=False, sys_path=call_roots)
+                got_d = utils.modname_to_modpath(name, hide_init=True, sys_path=call_roots)
             n_checked += 1
             if ctx is not None:
                 ctx.count()
@@ -298,10 +322,10 @@ def check_case(case, ctx):
                 if rel != exp_rel:
                     raise Violation('split_rel:' + _shape(tree, name),
                                     'split_modpath({}) -> relative part {!r} expected {!r}; {}'.format(p, rel, exp_rel, where))
-        if root_has_init:
-            if ctx is not None:
-                ctx.tag('root_is_package_dir')
-            return
+
+
+def _after_names(case, ctx, tree, root, roots, utils):
+    if True:
         # every python file: split gives the directory that must be on the path
         for rel in _py_files(tree):
             path = os.path.join(root, *rel.split('/'))
@@ -406,6 +430,17 @@ def _check_imports(case, tree, root, roots, ctx):
             return fails(sp, seen + (c,))
         will_raise = any(fails(c) for c in chain)
         on_path = bool(case.get('root_on_path'))
+        # index=0 is the documented way out of a name conflict: another directory on sys.path that holds the same dotted name
+        # must lose against the file that was asked for
+        rival = None
+        if index == 0 and case.get('shadowed_root') and case.get('second_root', 'none') != 'none' and not case.get('symlink'):
+            rival = os.path.join(os.path.dirname(root), 'other', *parts[:k])
+            if os.path.isdir(rival):
+                sys.path.insert(0, rival)
+                if ctx is not None:
+                    ctx.tag('import:rival_directory_on_path')
+            else:
+                rival = None
         if on_path:
             # the directory is already a search path entry (at the front): it must still be exactly there afterwards
             sys.path.insert(0, sdir)
@@ -424,6 +459,8 @@ def _check_imports(case, tree, root, roots, ctx):
             sys.path[:] = before
             if on_path:
                 sys.path.remove(sdir)
+            if rival is not None:
+                sys.path.remove(rival)
             sandbox.purge_modules([top])
         done += 1
         if ctx is not None:
